@@ -103,4 +103,4 @@ def main():
 
 
 if __name__ == '__main__':
-    sys.exit(main())
+    sys.exit(common.run_main(main))
